@@ -30,8 +30,6 @@ class CallMixin:
                 else:
                     pos_exprs.append(a)
             kw_names = [k.arg for k in e.keywords]
-            if any(k is None for k in kw_names):
-                raise OutOfSubset("**kwargs call", e)
             exprs = pos_exprs + ([star.value] if star is not None else []) + [k.value for k in e.keywords]
 
             def g(vs, s2):
@@ -48,7 +46,14 @@ class CallMixin:
                         args = args + list(sv.items if isinstance(sv, PyList) else sv)
                     else:
                         args = args + [StarArg(sv)]
-                kwargs = dict(zip(kw_names, rest))
+                kwargs = {}
+                for kn, kv in zip(kw_names, rest):
+                    if kn is None:
+                        if not isinstance(kv, PyDict):
+                            raise OutOfSubset("** of a non-literal mapping", e)
+                        kwargs.update(kv.d)
+                    else:
+                        kwargs[kn] = kv
                 return self.call(fn, args, kwargs, s2, e)
             return self.bind(self.eval_list(exprs, s), g)
         return self.bind(self.eval(e.func, st), f)
@@ -189,6 +194,32 @@ class CallMixin:
             return res[0][0]
         raise OutOfSubset("non-constant default argument", d)
 
+    # ------------------------------------------------------------ decorators (DESIGN 2.5)
+    SEQ_DECORATORS = ("block_if_measured", "screen", "store", "mark_non_empty", "verify_parametrization")
+    DEC_FILE = "pulser-core/pulser/sequence/_decorators.py"
+
+    def decorated(self, fd, inner):
+        """Wrap `inner` (a callable Value) by the real wrappers of fd's decorators, innermost first."""
+        cur = inner
+        for d in reversed(fd.decorator_list):
+            name = dec_name(d).split(".")[-1]
+            if name in self.SEQ_DECORATORS:
+                dfd = self.src.find(self.DEC_FILE, name)
+                wfd = [n for n in dfd.body if isinstance(n, ast.FunctionDef) and n.name == "wrapper"][0]
+                self.index_function(dfd)
+                w = Closure(wfd, {"func": cur}, None)
+                w.file = self.DEC_FILE
+                w.fname = getattr(cur, "fname", fd.name)
+                cur = self.decorated(wfd, w) if any(dec_name(x).split(".")[-1] in self.SEQ_DECORATORS for x in wfd.decorator_list) else w
+            elif name in ("wraps", "property", "cached_property", "staticmethod", "classmethod", "abstractmethod", "overload", "setter", "lru_cache", "parametrize"):
+                continue
+            else:
+                raise OutOfSubset(f"unknown decorator {dec_name(d)}", fd)
+        return cur
+
+    def has_seq_decorators(self, fd):
+        return any(dec_name(d).split(".")[-1] in self.SEQ_DECORATORS for d in fd.decorator_list)
+
     # ------------------------------------------------------------ inlining
     def inline_call(self, rel, qual, fd, bound, st, node, con, owner_cls):
         if self.call_depth > MAX_INLINE_DEPTH:
@@ -222,6 +253,18 @@ class CallMixin:
 
     def call_closure(self, clo, args, kwargs, st, node):
         fd = clo.fdef
+        cfile = getattr(clo, "file", None)
+        if cfile is not None and cfile != self.file:
+            saved_file = self.file
+            self.file = cfile
+            try:
+                return self.call_closure_in(clo, args, kwargs, st, node)
+            finally:
+                self.file = saved_file
+        return self.call_closure_in(clo, args, kwargs, st, node)
+
+    def call_closure_in(self, clo, args, kwargs, st, node):
+        fd = clo.fdef
         if isinstance(fd, ast.Lambda):
             bound = self.bind_args(fd, None, args, kwargs, st, node, self.file)
             callee = st.copy()
@@ -237,7 +280,8 @@ class CallMixin:
             return [(bound, st)]
         callee = st.copy()
         callee.env = dict(clo.env)
-        callee.env.update(st.env)      # closures are only called from their defining frame: see its current bindings
+        if getattr(clo, "dynamic_env", False):
+            callee.env.update(st.env)      # nested defs are only called from their defining frame: see its current bindings
         callee.env.update(bound)
         saved = self.loop_counter
         self.loop_counter = [1000]
@@ -297,13 +341,13 @@ class CallMixin:
                 s2 = st.copy()
                 s2.assume(cond)
                 s2.tags.append(f"{con.qual.split('.')[-1]}!{exc}")
-                if not con.exc_safe:
+                if not getattr(con, 'assume_exc_safe', con.exc_safe):
                     self.havoc_modifies(con, c0, s2)
                 out.append((Exc(exc, con.qual), s2))
         for exc in con.may_raise:
             s2 = st.copy()
             s2.tags.append(f"{con.qual.split('.')[-1]}!{exc}?")
-            if not con.exc_safe:
+            if not getattr(con, 'assume_exc_safe', con.exc_safe):
                 self.havoc_modifies(con, c0, s2)
             out.append((Exc(exc, con.qual), s2))
         # normal outcome
@@ -507,6 +551,10 @@ class CallMixin:
             if name in ("items", "keys", "values"):
                 return [(IterV("items", [v, name]), st)]
         if isinstance(v, PyDict):
+            if name == "values":
+                return [(PyList(list(v.d.values())), st)]
+            if name == "keys":
+                return [(PyList(list(v.d.keys())), st)]
             if name == "items":
                 return [(PyList([(k, x) for k, x in v.d.items()]), st)]
             if name == "get":
